@@ -222,38 +222,47 @@ Proof.
 Qed.
 
 (* ------------------------------------------------------------------ *)
-(* REFUTED: "op(x, out=y) holds the same values as op(x) whatever y contained before"
-   is FALSE for proximal_l2(space)(sigma) in the branch sigma*lam >= ||x|| on spaces
-   with fewer than THRESHOLD_SMALL = 100 entries: the body is out.set_zero(), which
-   evaluates 0*out + 0*out, so NaN in out survives; and because the out-of-place
-   call runs the same body on an uninitialised element, op(x) itself returns
-   whatever np.empty handed out times zero (finding C03/set-zero-reads-out). *)
-Theorem inplace_ignores_old_out_refuted :
-  match small_guarded with SvUnguarded => False | _ => True end \/
-  data_after (call junkQ prox_l2_big (VElem 0%nat) (Some (VElem 1%nat)) [(sp3, q3 1 2 3); (sp3, nan3)]) 1 = Some nan3
-  /\ data_after (call junkQ prox_l2_big (VElem 0%nat) (Some (VElem 1%nat)) [(sp3, q3 1 2 3); (sp3, q3 7 8 9)]) 1
-     = Some (q3 0 0 0).
-Proof. exact prox_l2_old_out_survives. Qed.
-Theorem outofplace_reads_uninitialised_refuted :
-  match small_guarded with SvUnguarded => False | _ => True end \/
-  match call junkQ prox_l2_big (VElem 0%nat) None [(sp3, q3 1 2 3)] with
-  | Ok (VElem r) s => data_after (Ok (VElem r) s) r = Some nan3
-  | _ => False
-  end.
-Proof. exact prox_l2_oop_reads_uninitialised. Qed.
-(* the same witness once the source is repaired ([small_guarded] <> SvUnguarded): zeros in both modes *)
-Theorem repaired_small_regime_ignores_out :
-  match small_guarded with SvUnguarded => True | _ => False end \/
-    (data_after (call junkQ prox_l2_big (VElem 0%nat) (Some (VElem 1%nat)) [(sp3, q3 1 2 3); (sp3, nan3)]) 1
-      = Some (q3 0 0 0)
-    /\ match call junkQ prox_l2_big (VElem 0%nat) None [(sp3, q3 1 2 3)] with
-       | Ok (VElem r) s => data_after (Ok (VElem r) s) r = Some (q3 0 0 0)
-       | _ => False
-       end).
-Proof. exact prox_l2_repaired_ignores_out. Qed.
-(* the root cause in isolation: the unguarded y.set_zero() on fewer than 100 entries keeps a
-   NaN; the variant that skips zero terms ignores the old contents at every size *)
-Theorem set_zero_keeps_nan_refuted :
+(* T1  set_zero AND THE OPERATORS BUILT ON IT, for the CURRENT source.  Until /repo commit
+   d3867d7 the small-size branch of _lincomb_impl evaluated 0*out + 0*out, so
+   out.set_zero() kept NaN / uninitialised garbage on fewer than THRESHOLD_SMALL entries
+   and "whatever y contained before" was false for proximal_l2 (step >= 1, in place and,
+   through _default_call_out_of_place, OUT OF PLACE), ComponentProjectionAdjoint, rows of a
+   ProductSpaceOperator without entry and Laplacian (finding set-zero-reads-out, fixed).
+   [small_guarded] is regenerated from the source on every run; the theorems below hold
+   because it is no longer SvUnguarded and stop checking if the branch regresses. *)
+Theorem set_zero_ignores_old_out :
+  forall (s : @store (option R)) y sp (d : list (option R)), rd s y = Some (sp, d) ->
+  do_set_zero y s = Ok tt (upd s y (sp, cl (repeat 0%R (length d)))).
+Proof. exact set_zero_ignores_old. Qed.
+Print Assumptions set_zero_ignores_old_out.
+(* proximal_l2(space)(sigma) with sigma*lam >= ||x||: op(x, out=y) returns y holding zeros and
+   op(x) returns a NEW element of zeros -- every size, any contents of y, of x and of
+   uninitialised memory *)
+Theorem proximal_l2_bigstep_in_place :
+  forall (junk : nat -> nat -> option R) (sp : space) (s : @store (option R)) (x y : nat)
+         (dx dy : list (option R)),
+  wf_store s -> rd s x = Some (sp, dx) -> rd s y = Some (sp, dy) ->
+  call junk (prox_l2_bigstep sp) (VElem x) (Some (VElem y)) s
+  = Ok (VElem y) (upd s y (sp, cl (repeat 0%R (fst sp)))).
+Proof. exact prox_bigstep_ip_any. Qed.
+Theorem proximal_l2_bigstep_out_of_place :
+  forall (junk : nat -> nat -> option R) (sp : space) (s : @store (option R)) (x : nat) (dx : list (option R)),
+  wf_store s -> rd s x = Some (sp, dx) ->
+  call junk (prox_l2_bigstep sp) (VElem x) None s
+  = Ok (VElem (length s)) (s ++ [(sp, cl (repeat 0%R (fst sp)))]).
+Proof. exact prox_bigstep_oop_any. Qed.
+Print Assumptions proximal_l2_bigstep_out_of_place.
+(* the former counterexamples, recomputed at [option Q] with the current [small_guarded] *)
+Theorem former_counterexample_proximal_l2 :
+  data_after (call junkQ prox_l2_big (VElem 0%nat) (Some (VElem 1%nat)) [(sp3, q3 1 2 3); (sp3, nan3)]) 1
+    = Some (q3 0 0 0)
+  /\ match call junkQ prox_l2_big (VElem 0%nat) None [(sp3, q3 1 2 3)] with
+     | Ok (VElem r) s => data_after (Ok (VElem r) s) r = Some (q3 0 0 0)
+     | _ => False
+     end.
+Proof. exact prox_l2_nan_out_is_overwritten. Qed.
+(* why the repair was needed, and that either repaired form is enough (variant-indexed model) *)
+Theorem unguarded_set_zero_keeps_nan :
   exists (s s' : @store (option R)) y sp,
     rd s y = Some (sp, [None]) /\ do_set_zero_g SvUnguarded y s = Ok tt s' /\ rd s' y = Some (sp, [None]).
 Proof. exact set_zero_small_keeps_nan. Qed.
@@ -262,22 +271,6 @@ Theorem set_zero_guarded_ignores_old_out :
   g <> SvUnguarded -> rd s y = Some (sp, d) ->
   do_set_zero_g g y s = Ok tt (upd s y (sp, cl (repeat 0%R (length d)))).
 Proof. exact set_zero_guarded_ignores_old. Qed.
-Print Assumptions set_zero_guarded_ignores_old_out.
-(* PARTIAL: from 100 entries on the same operator ignores the old contents of out *)
-Theorem proximal_l2_bigstep_partial :
-  forall (junk : nat -> nat -> option R) (sp : space) (s : @store (option R)) (x y : nat)
-         (dx dy : list (option R)),
-  wf_store s -> rd s x = Some (sp, dx) -> rd s y = Some (sp, dy) -> (threshold_small <= fst sp)%nat ->
-  call junk (prox_l2_bigstep sp) (VElem x) (Some (VElem y)) s
-  = Ok (VElem y) (upd s y (sp, cl (repeat 0%R (fst sp)))).
-Proof. exact prox_bigstep_ip_large. Qed.
-Print Assumptions proximal_l2_bigstep_partial.
-Theorem set_zero_partial :
-  (forall (s : @store (option R)) y sp d, rd s y = Some (sp, d) -> (threshold_small <= length d)%nat ->
-     do_set_zero y s = Ok tt (upd s y (sp, cl (repeat 0%R (length d))))) /\
-  (forall (s : @store (option R)) y sp d, wf_store s -> rd s y = Some (sp, cl d) ->
-     do_set_zero y s = Ok tt (upd s y (sp, cl (rscal 0 d)))).
-Proof. split; [exact set_zero_large_clean | exact set_zero_clean]. Qed.
 
 (* REFUTED without the side conditions of call_protocol_all_trees (objects owned by an
    operator -- user-supplied temporaries, self.vector -- passed as x or out): *)
@@ -378,7 +371,7 @@ Proof.
   intros ro doms rans xd se Hro HF Hx. apply rows_agree. exact (ents_lengths ro doms rans xd se Hro HF Hx).
 Qed.
 Print Assumptions product_space_operator_modes_agree_for_trees.
-(* T1  ComponentProjectionAdjoint(space, i)(x, out=y) under the same proviso *)
+(* T1  ComponentProjectionAdjoint(space, i)(x, out=y) under the same proviso (variant-independent form) *)
 Theorem component_projection_adjoint_partial :
   forall i x (outs : list nat) (sps : list space) (s : @store (option R)) dx spi oi,
   wf_store s -> NoDup outs -> length outs = length sps -> ~ In x outs ->
@@ -390,23 +383,44 @@ Theorem component_projection_adjoint_partial :
     (forall k o sp, k <> i -> nth_error outs k = Some o -> nth_error sps k = Some sp ->
         rd s' o = Some (sp, cl (zvec sp))).
 Proof. exact cpadj_ip_ok. Qed.
-(* REFUTED without the proviso (finding set-zero-reads-out, two more sites): *)
-Theorem component_projection_adjoint_refuted :
-  match small_guarded with SvUnguarded => False | _ => True end \/
-  (match cpadj_ip 0 0%nat [1%nat; 2%nat] [(sp3, q3 1 2 3); (sp3, nan3); (sp3, nan3)] with
-   | Ok _ s => parts_after (Ok [1%nat; 2%nat] s) = Some [q3 1 2 3; nan3]
-   | Err _ _ => False
-   end
-   /\ parts_after (cpadj_oop 0 [sp3; sp3] 0%nat [(sp3, q3 1 2 3)]) = Some [q3 1 2 3; q3 0 0 0]).
-Proof. exact cpadj_old_out_survives. Qed.
-Theorem product_space_operator_empty_row_refuted :
+(* T1  for the CURRENT source the proviso is always met ([zero_safe_now]): op(x, out=y) of a
+   ProductSpaceOperator returns y whose parts hold exactly the rows of op(x), for ARBITRARY
+   (NaN-filled) contents of y, empty rows included; likewise ComponentProjectionAdjoint. *)
+Theorem product_space_operator_call_in_place_equals_out_of_place :
+  forall (junk : nat -> nat -> option R) ro doms rans xs outs xd (se : list sent) (s : @store (option R)),
+  Forall (ent_ok ro doms rans) se -> outs_static ro rans xs outs -> args_ok ro doms xs xd s ->
+  (forall i o ri, nth_error outs i = Some o -> nth_error rans i = Some ri -> exists d, rd s o = Some (ri, d)) ->
+  exists s', pso_call junk (map fst se) doms rans xs (Some outs) s = Ok outs s' /\
+    (forall i o ri, nth_error outs i = Some o -> nth_error rans i = Some ri ->
+        rd s' o = Some (ri, cl (oop_rows rans xd se i))) /\
+    ext s s' outs /\ wf_store s'.
+Proof. exact pso_call_in_place_now. Qed.
+Print Assumptions product_space_operator_call_in_place_equals_out_of_place.
+Theorem component_projection_adjoint_in_place :
+  forall i x (outs : list nat) (sps : list space) (s : @store (option R)) dx spi oi,
+  wf_store s -> NoDup outs -> length outs = length sps -> ~ In x outs ->
+  rd s x = Some (spi, cl dx) -> nth_error outs i = Some oi -> nth_error sps i = Some spi ->
+  (forall k o sp, nth_error outs k = Some o -> nth_error sps k = Some sp -> exists d, rd s o = Some (sp, d)) ->
+  exists s', cpadj_ip i x outs s = Ok tt s' /\ wf_store s' /\ ext s s' outs /\
+    rd s' oi = Some (spi, cl dx) /\
+    (forall k o sp, k <> i -> nth_error outs k = Some o -> nth_error sps k = Some sp ->
+        rd s' o = Some (sp, cl (zvec sp))).
+Proof. exact cpadj_ip_now. Qed.
+(* the former counterexamples of these two sites, recomputed *)
+Theorem former_counterexample_component_projection_adjoint :
+  match cpadj_ip 0 0%nat [1%nat; 2%nat] [(sp3, q3 1 2 3); (sp3, nan3); (sp3, nan3)] with
+  | Ok _ s => parts_after (Ok [1%nat; 2%nat] s) = Some [q3 1 2 3; q3 0 0 0]
+  | Err _ _ => False
+  end
+  /\ parts_after (cpadj_oop 0 [sp3; sp3] 0%nat [(sp3, q3 1 2 3)]) = Some [q3 1 2 3; q3 0 0 0].
+Proof. exact cpadj_nan_out_is_overwritten. Qed.
+Theorem former_counterexample_product_space_operator_empty_row :
   let ents := [{| en_row := 0; en_col := 0; en_op := scal3 2 |}] in
-  match small_guarded with SvUnguarded => False | _ => True end \/
-  (parts_after (pso_call junkQ ents [sp3; sp3] [sp3; sp3] [0%nat; 1%nat] (Some [2%nat; 3%nat])
-                  [(sp3, q3 1 2 3); (sp3, q3 4 5 6); (sp3, nan3); (sp3, nan3)]) = Some [q3 2 4 6; nan3]
-   /\ parts_after (pso_call junkQ ents [sp3; sp3] [sp3; sp3] [0%nat; 1%nat] None
-                  [(sp3, q3 1 2 3); (sp3, q3 4 5 6)]) = Some [q3 2 4 6; q3 0 0 0]).
-Proof. exact pso_zero_row_old_out_survives. Qed.
+  parts_after (pso_call junkQ ents [sp3; sp3] [sp3; sp3] [0%nat; 1%nat] (Some [2%nat; 3%nat])
+                 [(sp3, q3 1 2 3); (sp3, q3 4 5 6); (sp3, nan3); (sp3, nan3)]) = Some [q3 2 4 6; q3 0 0 0]
+  /\ parts_after (pso_call junkQ ents [sp3; sp3] [sp3; sp3] [0%nat; 1%nat] None
+                 [(sp3, q3 1 2 3); (sp3, q3 4 5 6)]) = Some [q3 2 4 6; q3 0 0 0].
+Proof. exact pso_zero_row_nan_out_is_overwritten. Qed.
 
 (* BroadcastOperator(op_0, ..., op_{n-1}) is the ProductSpaceOperator with entries (i, 0, op_i):
    its entry list meets the hypotheses of the two theorems above whenever every op_i is a
